@@ -304,8 +304,6 @@ def solve_stages(stages, rlimit, timeout_ms, use_cvc5, cex_terms, deadline=None)
         for label, asserts in stages:
             if label in done:
                 continue
-            s = z3.Solver()
-            s.set("rlimit", int(rlimit * frac))
             tmo = int(timeout_ms * frac) + 1000
             if deadline is not None:
                 left = int((deadline - time.time()) * 1000)
@@ -313,29 +311,15 @@ def solve_stages(stages, rlimit, timeout_ms, use_cvc5, cex_terms, deadline=None)
                     detail.append((label, "skipped:obligation-budget", 0))
                     continue
                 tmo = min(tmo, left)
-            s.set("timeout", tmo)
-            s.add(*asserts)
             t1 = time.time()
-            try:
-                r = s.check()
-            except z3.Z3Exception as ex:
-                detail.append((label, "error:" + str(ex)[:100], 0))
-                done.add(label)
-                continue
+            r, mm = guarded_check(asserts, int(rlimit * frac), tmo, cex_terms if label in ("qf", "full") else None)
             detail.append((label, str(r), round(time.time() - t1, 3)))
-            if r == z3.unsat:
+            if r == "unsat":
                 verdict, backend = "unsat", f"z3/{label}"
                 return
-            if r == z3.sat:
+            if r == "sat":
                 done.add(label)
                 if label in ("qf", "full"):
-                    m = s.model()
-                    mm = {}
-                    for name, term in (cex_terms or {}).items():
-                        try:
-                            mm[name] = str(m.eval(term, model_completion=True))
-                        except z3.Z3Exception:
-                            pass
                     if label == "full" or not has_full:
                         verdict, backend, model = "sat", f"z3/{label}", mm
                         return
@@ -372,6 +356,68 @@ def solve_stages(stages, rlimit, timeout_ms, use_cvc5, cex_terms, deadline=None)
     if verdict == "unknown" and cand is not None:
         verdict, backend, model = "sat-qf", "z3/qf", cand
     return {"verdict": verdict, "backend": backend, "model": model, "detail": detail, "secs": round(time.time() - t0, 3)}
+
+
+def guarded_check(asserts, rlimit, tmo_ms, cex_terms):
+    """one z3 check in a forked child with a hard kill (z3's timeout is not always honoured in nonlinear arithmetic)"""
+    import pickle
+    import select
+    import signal
+
+    r, w = os.pipe()
+    pid = os.fork()
+    if pid == 0:
+        os.close(r)
+        res = ("unknown", {})
+        try:
+            s = z3.Solver()
+            s.set("rlimit", rlimit)
+            s.set("timeout", tmo_ms)
+            s.add(*asserts)
+            c = s.check()
+            mm = {}
+            if c == z3.sat and cex_terms:
+                m = s.model()
+                for name, term in cex_terms.items():
+                    try:
+                        mm[name] = str(m.eval(term, model_completion=True))
+                    except z3.Z3Exception:
+                        pass
+            res = (str(c), mm)
+        except BaseException as ex:  # noqa
+            res = ("error:" + repr(ex)[:80], {})
+        try:
+            with os.fdopen(w, "wb") as f:
+                f.write(pickle.dumps(res))
+        finally:
+            os._exit(0)
+    os.close(w)
+    buf = bytearray()
+    end = time.time() + tmo_ms / 1000.0 + 3.0
+    killed = False
+    while True:
+        left = end - time.time()
+        if left <= 0:
+            try:
+                os.kill(pid, signal.SIGKILL)
+            except ProcessLookupError:
+                pass
+            killed = True
+            break
+        ready, _, _ = select.select([r], [], [], min(left, 0.5))
+        if ready:
+            chunk = os.read(r, 1 << 16)
+            if not chunk:
+                break
+            buf += chunk
+    os.close(r)
+    os.waitpid(pid, 0)
+    if killed or not buf:
+        return "unknown:killed" if killed else "unknown:died", {}
+    try:
+        return pickle.loads(bytes(buf))
+    except Exception:  # noqa
+        return "unknown:garbled", {}
 
 
 def run_cvc5(text, tlimit_s, cex_names=()):
